@@ -148,7 +148,15 @@ def exec_masters(case):
     w = cli.mkscratch("c17m")
     try:
         a = cli.write_sources(w / "thin", [("emoji_u1f601.svg", good(0)), ("emoji_u1f605.svg", good(1))])
-        if case["cls"] == "masters-differ":
+        if case["cls"] == "defect-in-one-master":
+            # the usual <master>/svg/*.svg layout: same file names in identically named directories under different roots;
+            # one master's copy of a source is not well-formed XML
+            bad_text = '<svg xmlns="http://www.w3.org/2000/svg" viewBox="0 0 100 100"><path d="M0,0 L1,1 Z"'
+            shutil.rmtree(w / "thin")
+            which = case["order"]  # the master whose source is broken
+            a = cli.write_sources(w / "thin" / "svg", [("emoji_u1f601.svg", good(0)), ("emoji_u1f605.svg", bad_text if which == 0 else good(1))])
+            b = cli.write_sources(w / "bold" / "svg", [("emoji_u1f601.svg", good(0)), ("emoji_u1f605.svg", bad_text if which == 1 else good(1))])
+        elif case["cls"] == "masters-differ":
             b = cli.write_sources(w / "bold", [("emoji_u1f601.svg", good(0)), ("emoji_u1f609.svg", good(1))])
         elif case["cls"] == "masters-superset":  # the other master has every source of this one, and one more
             b = cli.write_sources(w / "bold", [("emoji_u1f601.svg", good(0)), ("emoji_u1f605.svg", good(1)), ("emoji_u1f609.svg", good(0))])
@@ -160,8 +168,8 @@ def exec_masters(case):
             b = b + extra
         cfg = {"color_format": "glyf_colr_1", "output_file": "Font.ttf",
                "axis": {"wght": {"name": "Weight", "default": 400}},
-               "master": {"thin": {"style_name": "Thin", "position": {"wght": 100 if case["order"] == 0 else 400}, "srcs": [str(p) for p in a]},
-                          "bold": {"style_name": "Bold", "position": {"wght": 400 if case["order"] == 0 else 100}, "srcs": [str(p) for p in b]}}}
+               "master": {"thin": {"style_name": "Thin", "position": {"wght": 100 if case["order"] == 0 or case["cls"] == "defect-in-one-master" else 400}, "srcs": [str(p) for p in a]},
+                          "bold": {"style_name": "Bold", "position": {"wght": 400 if case["order"] == 0 or case["cls"] == "defect-in-one-master" else 100}, "srcs": [str(p) for p in b]}}}
         (w / "c.toml").write_text(toml.dumps(cfg))
         r = cli.nanoemoji(w, [w / "c.toml"])
         out = w / "build" / "Font.ttf"
@@ -223,7 +231,7 @@ def run(report, tier, only=None):
                 cases.append({"kind": "cli", "cls": cls, "fmt": fmt, "position": pos})
                 if fmts is VECTOR and (tier == "thorough" or pos in ("alone", "middle-of-3")):
                     cases.append({"kind": "cli", "cls": cls, "fmt": fmt, "position": pos, "noclip": True})
-    for cls in ("masters-differ", "masters-superset", "masters-subset", "duplicate-names-in-master"):
+    for cls in ("masters-differ", "masters-superset", "masters-subset", "duplicate-names-in-master", "defect-in-one-master"):
         for order in (0, 1):
             cases.append({"kind": "masters", "cls": cls, "order": order})
     if only in (None, "cli"):
